@@ -31,7 +31,7 @@ NPROC = os.cpu_count() or 4
 EVDIR = os.path.join(VERIF, "evidence") if not ALT else os.path.join(BUILD, "evidence" + ALT)
 
 # property -> (cluster package, quick timeout s, thorough timeout s, thorough shards, [(fuzz target, seconds)])
-def P(cluster, technique, text, note, ref, qt=300, tt=3000, shards=16, fuzz=()):
+def P(cluster, technique, text, note, ref, qt=900, tt=3000, shards=16, fuzz=()):
     return dict(cluster=cluster, technique=technique, text=text, note=note, ref=ref, qt=qt, tt=tt, shards=shards,
                 fuzz=list(fuzz))
 
@@ -65,8 +65,9 @@ PROPS = {
     "C33": P("hnet", "real onPacket on a hook-built PeerToPeer with generated peers/roles and relay sequences; decision function transcribed from the statement",
              "Every delivery to the recording callback is checked against the three stated rules (at most one delivery per flooded packet across any relaying peers, "
              "one-hop only from its source, originator broadcast only from a validator-role peer); entitled-but-dropped packets make the run inconclusive so the "
-             "check cannot pass vacuously. Exploration: sequences <= 30, far below the dedup window.",
-             "peers and roles are set directly through the hook (no handshake or discovery); self-sourced flooded packets not decided", "DESIGN §8 (C33)"),
+             "check cannot pass vacuously; a second sub-check floods up to two ring lengths of other digests around watched packets and demands suppression of every "
+             "re-relay inside the guaranteed remembering distance (19x500-1 later digests), with bias to bucket and ring boundaries. Exploration.",
+             "peers and roles are set directly through the hook (no handshake or discovery); self-sourced flooded packets and re-relays beyond the digest ring are not decided", "DESIGN §8 (C33)"),
     "C12": P("hsvc", "rapid-generated v3 transactions with spelling variants against an independent ICON serialization reference, a 3x JSON<->stored-form round trip "
              "and single-member metamorphic changes",
              "Every generated transaction's id equals an independently computed ICON hash, and every field plus signature validity survives repeated conversion to "
@@ -112,7 +113,7 @@ PROPS = {
              "block-manager completions, Byzantine messages, crash/restart). Exploration: schedules are sampled, not enumerated; deep lock/unlock scenarios are "
              "reached only through the scripted adversary plus noise; liveness is not examined.",
              "database durable across engine crashes; block manager object survives an engine restart; hooks consensus/verif_hooks_sim.go expose state, the pending "
-             "timer and message constructors only", "DESIGN §4 (C01)", qt=600, tt=3400),
+             "timer and message constructors only", "DESIGN §4 (C01)", qt=1200, tt=3400),
     "C02": P("hsim", "same simulator with crash weight x4: crash = Term + truncate every WAL tail file to a drawn cut in [durable size, size] (frame boundary, "
              "boundary+{1,7,8,9}, interior) or a crash point inside the last handler (after its k-th send, later sends withdrawn), restart on the same logs; "
              "invariants over the whole message pool",
@@ -120,7 +121,7 @@ PROPS = {
              "of the round WAL at the instant it is handed to the network; no double-sign evidence names a correct validator; restart from any generated torn log "
              "succeeds. Exploration over sampled schedules and crash points.",
              "prefix-persistence of appended WAL bytes; database durable; the logical clock advances on every vote (a re-signed vote differs, as with wall-clock time)",
-             "DESIGN §4 (C02)", qt=600, tt=3400),
+             "DESIGN §4 (C02)", qt=1200, tt=3400),
     "C09": P("hexec", "(i) token-scheduled bodies on NewWorldVirtualState/GetFuture against sequential execution on a plain world state (all reads and the final hash); "
              "(ii) the same generated blocks through real transitions at concurrency 2/4/8 against level 1 and the reference",
              "Lock-level interleavings of random programs (account read/write/idle locks, world read/write locks, reset, retry) must give identical reads, receipts and "
@@ -163,7 +164,7 @@ PROPS = {
              "applyRoundWAL loop and continued through up to 4 crash/recover/append cycles incl. rotated segments; recovered records must be a byte-equal prefix "
              "containing every synced record. Exploration with exhaustive small scopes.",
              "crash = truncation of the tail segment (prefix-persistence model); fsync and the file system are trusted; scratch on tmpfs; retention out of scope",
-             "DESIGN §4 (C03)", qt=600),
+             "DESIGN §4 (C03)", qt=1200),
     "C04": P("hcons", "rapid vote sequences on the real voteSet (hook), independent recount of the slot array after every add",
              "Threshold (exactly > 2n/3), uniqueness of the reported decision and stickiness are compared against an independent recount after every step of "
              "thousands of sequences up to n=10 with duplicates and conflicting re-votes. Exploration.",
@@ -190,7 +191,7 @@ PROPS = {
     "C22": P("hdata2", "enumerated boundary sizes plus rapid sizes; index and order identity on built and re-opened lists of real transactions and receipts",
              "For every required size, including 127/128, 255/256, 32767/32768 and 65535/65536/65537, full iteration and per-index lookup return exactly the "
              "original items in order, before and after Flush and re-open. Exploration over sizes.",
-             "transactions are unsigned stubs made from one template; receipt versions 1 and 2 only", "DESIGN §6 (C22)", qt=600, shards=4),
+             "transactions are unsigned stubs made from one template; receipt versions 1 and 2 only", "DESIGN §6 (C22)", qt=1200, shards=4),
     "C23": P("hdata2", "rapid (round trip, determinism and sorted keys via an independent RLP splitter, narrowing, must-reject, mutation decoding into 20 targets with "
              "a fixed-point and decoder-state canary) plus native go fuzz in thorough",
              "Values of a broad supported-type family round-trip with nil and empty kept apart and deterministic sorted-map encodings; out-of-range numbers, truncated "
